@@ -17,11 +17,15 @@ def rule_legacy_attr_parser(ctx):
     def idx(pred):
         return next((i for i, s in enumerate(stmts) if pred(s)), None)
 
-    i_first = idx(lambda s: s.startswith("let Some(attr)=it.next() else"))
-    i_allowed = idx(lambda s: "allowed_attr_params.is_empty()" in s and "Attribute is not allowed here" in s)
-    i_second = idx(lambda s: s.startswith("if let Some(another_attr)=it.next(){return Err(") and "Only a single attribute is allowed" in s)
-    i_match = idx(lambda s: s.startswith("let list=match &attr.meta{"))
-    i_parse = idx(lambda s: s.startswith("parse_punctuated_nested_meta(&mut info,&list.parse_args_with(Punctuated::parse_terminated)?,allowed_attr_params,None)?"))
+    def starts(s_, pat):
+        m_ = A.wsearch(s_, pat)
+        return m_ is not None and m_.start() == 0
+
+    i_first = idx(lambda s_: starts(s_, "let Some(attr)=it.next() else"))
+    i_allowed = idx(lambda s_: starts(s_, "if allowed_attr_params.is_empty(){return Err("))
+    i_second = idx(lambda s_: starts(s_, "if let Some(another_attr)=it.next(){return Err("))
+    i_match = idx(lambda s_: starts(s_, "let list=match &attr.meta{"))
+    i_parse = idx(lambda s_: starts(s_, "parse_punctuated_nested_meta(&mut info,&list.parse_args_with(Punctuated::parse_terminated)?,allowed_attr_params,None)?"))
     ctx.instance("get_meta_info:order", sample={"first": i_first, "not_allowed": i_allowed, "second": i_second, "match": i_match, "parse": i_parse})
     if None in (i_first, i_allowed, i_second, i_match, i_parse):
         raise A.AnchorLost(f"{UTILS}::get_meta_info", f"statement anchors {(i_first, i_allowed, i_second, i_match, i_parse)}")
@@ -33,17 +37,14 @@ def rule_legacy_attr_parser(ctx):
             "(`#[deref] #[deref(ignore)]`, `#[deref] #[deref(forward)]`) is silently ignored",
             {"stmts": [s[:60] for s in stmts]},
         )
-    m = stmts[i_match]
-    ctx.instance("get_meta_info:forms")
-    if 'syn::Meta::Path(_)=>{if allowed_attr_params.contains(&"ignore"){return Ok(info)}else {return Err(' not in m or "syn::Meta::NameValue(val)=>{return Err(" not in m:
-        ctx.report("legacy:forms", w, "handling of the empty (`#[attr]`) or name-value (`#[attr = ..]`) form changed: they must be an error unless `ignore` is allowed / always", {})
+    # (how the empty `#[attr]` and the name-value form are refused is REJECT-LEDGER's subject: rows of get_meta_info)
     pn = A.get_fn(ctx.files, UTILS, "parse_punctuated_nested_meta")
     w = ctx.where(f, pn.node)
     t = A.fn_text(pn)
     ctx.instance("nested:allow-list")
-    if t.count("if !allowed_attr_params.iter().any(|param|path.is_ident(param)){return Err(") != 2:
+    if len(A.wild("if !allowed_attr_params.iter().any(|param|path.is_ident(param)){return Err(").findall(t)) != 2:
         ctx.report("legacy:allow-list", w, "parameters are no longer checked against the position's allow-list in both the `name(..)` and the bare `name` form", {})
-    matches = [m_ for m_, _ in A.find(pn.block, "Expr::Match") if A.render(m_["expr"]) == "(wrapper_name,attr_name.as_str())"]
+    matches = [m_ for m_, _ in A.find(pn.block, "Expr::Match") if re.fullmatch(r"\(\w+,\w+\.as_str\(\)\)", A.render(m_["expr"]))]
     ctx.instance("nested:matches", sample=len(matches))
     if len(matches) != 2:
         raise A.AnchorLost(f"{UTILS}::parse_punctuated_nested_meta", f"{len(matches)} matches on (wrapper_name, attr_name)")
@@ -67,7 +68,7 @@ def rule_legacy_attr_parser(ctx):
                 for p in A.render_pat(arm["pat"]).split("|"):
                     slots.setdefault(mm.group(1), []).append((p, mm.group(2), guarded))
     ctx.instance("nested:not-depth")
-    if 'polyfill::Meta::List(list) if list.path.is_ident("not")=>{if wrapper_name.is_some(){return Err(' not in t:
+    if A.wsearch(t, 'polyfill::Meta::List(list) if list.path.is_ident("not")=>{if wrapper_name.is_some(){return Err(') is None:
         ctx.report("legacy:nested-not", w, "nested / repeated `not(..)` is no longer rejected (unbounded recursion on the attribute's nesting)", {})
     # slot overwrite: `info.X = Some(v)` without a test of info.X accepts duplicates and contradictions
     so = [g for g in A.functions(f) if g.name == "set_once"]
